@@ -203,6 +203,9 @@ def check_property(prop, tier, seed, replay=None):
     coverage["input_distribution"] = dist
     coverage["samples"] = samples or [{"note": "no script executed"}]
     coverage["rule"] = getattr(prop, "rule", "")
+    # a property may name correspondences of its own that broke (C02: runs the abstract system cannot explain)
+    broken += getattr(prop, "broken_correspondences", lambda: [])()
+    coverage.update(getattr(prop, "coverage_extra", lambda: {})())
 
     # 6. classify
     known = [k for k in known_findings() if k.get("property") == prop.id and k.get("status") == "open"]
